@@ -18,6 +18,33 @@ PUSH = "std::path::PathBuf::push"
 STR = "core::str::<impl str>::"
 
 
+def _is_bytes_of_str(fn, op):
+    return any(o.kind == "call" and o.call.name == STR + "as_bytes" for o in flow.origins(fn, op))
+
+
+def _promoted_byte(fn, op):
+    """the one byte / char constant an operand refers to (directly, or inside a promoted `&b'x'` / `Some(&b'x')`)"""
+    from ..facts import norm_path
+    for o in flow.origins(fn, op):
+        if o.kind != "const" or o.const is None:
+            continue
+        c = o.const
+        if "int" in c and c.get("ty") in ("u8", "char"):
+            return int(c["int"])
+        if "promoted" in c:
+            owner = fn
+            if c.get("named") and fn.prog.fns.get(norm_path(c["named"])) is not None:
+                owner = fn.prog.fns[norm_path(c["named"])]
+            pr = owner.raw.get("promoted", [])
+            if c["promoted"] < len(pr):
+                ints = [int(st["rv"]["op"]["c"]["int"]) for b in pr[c["promoted"]]["blocks"] for st in b["s"]
+                        if st["k"] == "assign" and st["rv"]["k"] == "use" and "c" in st["rv"]["op"] and "int" in st["rv"]["op"]["c"]
+                        and st["rv"]["op"]["c"].get("ty") in ("u8", "char")]
+                if len(ints) == 1:
+                    return ints[0]
+    return None
+
+
 def eval_pred_on(call, text, fn, prog=None, depth=0):
     """value of a recognised string predicate applied to the constant `text`; None when not recognised"""
     n = call.name
@@ -47,6 +74,24 @@ def eval_pred_on(call, text, fn, prog=None, depth=0):
                 return text.endswith(needle)
             if m == "contains":
                 return needle in text
+        return None
+    if n == "core::slice::<impl [T]>::contains" and len(args) == 2:
+        b = _promoted_byte(fn, args[1])
+        if b is not None and _is_bytes_of_str(fn, args[0]):
+            return b in text.encode()
+        return None
+    if n.endswith("Option<T> as core::cmp::PartialEq>::eq") and len(args) == 2:
+        # `bytes.first() == Some(&b'.')` / `bytes.last() == Some(&b'x')`
+        for i_, j_ in ((0, 1), (1, 0)):
+            pick = None
+            for o in flow.origins(fn, args[i_]):
+                if o.kind == "call" and o.call.name in ("core::slice::<impl [T]>::first", "core::slice::<impl [T]>::last") \
+                        and _is_bytes_of_str(fn, o.call.args[0]):
+                    pick = o.call.name.split("::")[-1]
+            b = _promoted_byte(fn, args[j_])
+            if pick is not None and b is not None:
+                data = text.encode()
+                return bool(data) and (data[0] if pick == "first" else data[-1]) == b
         return None
     if n.endswith("::eq") or n.endswith("::ne"):
         # str equality against a constant
@@ -179,8 +224,85 @@ def _extend_of_validated_split(prog, sj, c):
     return False
 
 
+def _fold_form(prog, sj):
+    """(fold call, closure Fn) when the joiner is written as `template.split('/').try_fold(base.to_path_buf(), |rv, seg| ..)`
+    and returns the result of the fold; else None"""
+    from ..facts import norm_path
+    for c in sj.calls():
+        if not c.name.endswith(("Iterator::try_fold", "Iterator::fold")) or len(c.args) != 3 or c.dest != {"l": 0}:
+            continue
+        sp = _split_of(sj, c.args[0])
+        init_ok = any(o.kind == "call" and o.call.name == "std::path::Path::to_path_buf" and any(
+            b.kind == "arg" and b.arg == 1 for b in flow.origins(sj, o.call.args[0])) for o in flow.origins(sj, c.args[1]))
+        cl = None
+        for o in flow.origins(sj, c.args[2]):
+            if o.kind == "agg" and o.rv.get("closure"):
+                cl = prog.fns.get(norm_path(o.rv["closure"]))
+        if sp is not None and sp[1] == "47" and init_ok and cl is not None and cl.argc == 3:
+            return c, cl
+    return None
+
+
+def check_fold_joiner(ctx, prog, fn_path, sj, fold, cl):
+    """the fold form: accumulator = closure parameter 2 (starts as a copy of the base), segment = parameter 3 (an item of
+    split('/')).  Every `&mut` use of the accumulator is a push of the segment under a guard `..` fails; the closure
+    returns the accumulator it was given."""
+    ctx.ob("C17.L2.base", "%s|returned path starts from the base argument" % fn_path, True,
+           "the joiner returns the fold over template.split('/') started from base.to_path_buf()", sj.where(fold.bb))
+    n = 0
+    for c in cl.calls():
+        if not c.args:
+            continue
+        p0 = op_place(c.args[0])
+        if p0 is None or "p" in p0:
+            continue
+        ty = cl.locals[p0["l"]].get("s", "")
+        if not (ty.startswith("&mut") and "std::path::PathBuf" in ty):
+            continue
+        acc = all(o.kind == "arg" and o.arg == 2 for o in flow.origins(cl, c.args[0]))
+        if c.name != PUSH or not acc:
+            ctx.ob("C17.L2.mutator", "%s|%s" % (fn_path, c.name.split("::")[-1]), False,
+                   "the path being built is also changed by %s inside the fold" % c.name, cl.where(c.bb))
+            continue
+        n += 1
+        seg_or = flow.origins(cl, c.args[1])
+        src_ok = bool(seg_or) and all(o.kind == "arg" and o.arg == 3 and not o.proj for o in seg_or)
+        ctx.ob("C17.L2.segment-source", "%s|push#%d segment comes from split('/')" % (fn_path, n), src_ok,
+               "segment origin %r" % seg_or, cl.where(c.bb))
+        excluded, seen = False, []
+        thru = lambda k: 0 if k.name.split("::")[-1] in ("as_bytes", "first", "last", "bytes", "chars", "as_str", "deref") else None
+        for (sb, taken) in flow.guards(cl, c.bb):
+            cd = flow.cond_of(cl, sb)
+            if cd.kind != "call" or not cd.call.args:
+                continue
+            roots = [o for a in cd.call.args for o in flow.origins(cl, a, through_calls=thru)]
+            if not any(o.kind == "arg" and o.arg == 3 for o in roots):
+                continue
+            v = eval_pred_on(cd.call, "..", cl, prog)
+            side = flow.bool_true_labels(taken)
+            seen.append((cd.call.name, v, side))
+            if v is None or side is None:
+                continue
+            if (v != cd.neg) != side:
+                excluded = True
+        ctx.ob("C17.L2.dotdot-guard", "%s|push#%d cannot append '..'" % (fn_path, n), excluded,
+               "guards on the segment (predicate, value on '..', side the push is on): %s" % seen, cl.where(c.bb))
+    # what the closure hands on is the accumulator it was given
+    rets = [o for o in flow.origins(cl, 0) if o.kind == "agg" and o.rv.get("variant") in ("Some", "Ok", "Continue") and o.rv["ops"]]
+    same = bool(rets) and all(all(q.kind == "arg" and q.arg == 2 for q in flow.origins(cl, o.rv["ops"][0])) for o in rets)
+    ctx.ob("C17.L2.base", "%s|the fold hands its accumulator on" % fn_path, same or cl.locals[0].get("s", "").endswith("PathBuf"),
+           "the closure of the fold returns a path other than the accumulator it extends", cl.loc)
+    return n
+
+
 def check_safe_join(ctx, prog, fn_path, floor=True):
     sj = prog.fn(fn_path)
+    ff = _fold_form(prog, sj)
+    if ff is not None and not sj.calls_to(PUSH):
+        n_ = check_fold_joiner(ctx, prog, fn_path, sj, ff[0], ff[1])
+        if floor:
+            ctx.floor("C17.L2 sites that grow the joined path in safe_join", n_, 1)
+        return n_
     pushes = sj.calls_to(PUSH)
     # every call that takes the path being built by `&mut` (push, extend, set_file_name, pop ...)
     growers = []
